@@ -26,6 +26,7 @@ HAND = [
     [embed("E1", [leaf("A", "n"), leaf("B")], ptr=True), leaf("C", "n")],
     [leaf("A", omitzero=True), leaf("B", omitempty=True, kind="str"), leaf("C", omitempty=True, kind="slice"), leaf("D", string=True),
      leaf("E", omitzero=True, kind="slice"), leaf("F", omitempty=True)],
+    [leaf("A", kind="zeroer"), leaf("B", omitzero=True, kind="zeroer"), leaf("C", omitempty=True, kind="zeroer"), leaf("D")],   # IsZero method
 ]
 
 
@@ -40,7 +41,7 @@ def random_types(seed, n):
         name = r.choice([n for n in [None, None] + NAMES if (n or go) not in names])
         names.add(name or go)
         return leaf(go, name, casing=r.choice([0, 0, 0, 1, 2]), omitzero=r.random() < 0.15, omitempty=r.random() < 0.15,
-                    string=r.random() < 0.1, kind=r.choice(["int", "int", "str", "slice"]))
+                    string=r.random() < 0.1, kind=r.choice(["int", "int", "str", "slice", "zeroer"]))
 
     def mkstruct(depth, eidx):
         used = set()
